@@ -265,6 +265,24 @@ theorem okNested_assigned_decl {all : List String} {te : C.TyEnv} {s : Stmt}
   | write e => intro x hx; simp [Stmt.assigned] at hx
   | sleep e => intro x hx; simp [Stmt.assigned] at hx
   | brk => intro x hx; simp [Stmt.assigned] at hx
-  | call y g ps ls rt body ret args _ => simp only [Stmt.okNested] at h; cases h
+  | call y g ps ls rt body ret args _ =>
+    simp only [Stmt.okNested, Bool.and_eq_true] at h
+    obtain ⟨_, hbody⟩ := h
+    cases hfd : funDecls ps body with
+    | none => rw [hfd] at hbody; cases hbody
+    | some te' =>
+      rw [hfd] at hbody
+      simp only [Bool.and_eq_true] at hbody
+      intro x hx
+      cases y with
+      | none => simp [Stmt.assigned] at hx
+      | some y =>
+        simp only [Stmt.assigned, Option.toList, List.mem_singleton] at hx
+        subst hx
+        cases ret with
+        | none => simp [callRetOk] at hbody
+        | some e =>
+          simp only [callRetOk, Bool.and_eq_true, beq_iff_eq] at hbody
+          rw [hbody.2.2]; rfl
 
 end Reduino.Lemmas.C01
